@@ -65,76 +65,95 @@ fn unary_node(def: &str, child: Sx) -> Sx {
     }
 }
 
-/// number of trees with exactly n nodes
-pub fn count_exact(n: usize, memo: &mut Vec<u64>) -> u64 {
-    while memo.len() <= n {
-        let k = memo.len();
-        let v = if k == 0 {
-            0
-        } else if k == 1 {
-            LEAVES.len() as u64
-        } else {
-            let mut t = UNARY.len() as u64 * memo[k - 1];
-            let mut s = 0u64;
-            for i in 1..=(k - 2) {
-                s += memo[i] * memo[k - 1 - i];
-            }
-            t += BINARY.len() as u64 * s;
-            t
-        };
-        memo.push(v);
+/// an alphabet of constructs to enumerate trees over
+#[derive(Clone, Copy)]
+pub struct Alphabet {
+    pub leaves: &'static [(&'static str, &'static str)],
+    pub unary: &'static [&'static str],
+    pub binary: &'static [&'static str],
+}
+
+pub const CORE: Alphabet = Alphabet { leaves: LEAVES, unary: UNARY, binary: BINARY };
+
+impl Alphabet {
+    /// number of trees with exactly n nodes
+    pub fn count_exact(&self, n: usize, memo: &mut Vec<u64>) -> u64 {
+        while memo.len() <= n {
+            let k = memo.len();
+            let v = if k == 0 {
+                0
+            } else if k == 1 {
+                self.leaves.len() as u64
+            } else {
+                let mut t = self.unary.len() as u64 * memo[k - 1];
+                let mut s = 0u64;
+                for i in 1..=(k - 2) {
+                    s += memo[i] * memo[k - 1 - i];
+                }
+                t += self.binary.len() as u64 * s;
+                t
+            };
+            memo.push(v);
+        }
+        memo[n]
     }
-    memo[n]
+
+    pub fn count_up_to(&self, max_nodes: usize) -> u64 {
+        let mut memo = vec![];
+        (1..=max_nodes).map(|n| self.count_exact(n, &mut memo)).sum()
+    }
+
+    /// index -> tree, all trees with 1 node first, then 2, ... (size order)
+    pub fn unrank(&self, mut index: u64, max_nodes: usize) -> Option<Sx> {
+        let mut memo = vec![];
+        for n in 1..=max_nodes {
+            let c = self.count_exact(n, &mut memo);
+            if index < c {
+                return Some(self.unrank_exact(index, n, &mut memo));
+            }
+            index -= c;
+        }
+        None
+    }
+
+    fn unrank_exact(&self, mut index: u64, n: usize, memo: &mut Vec<u64>) -> Sx {
+        if n == 1 {
+            let (d, t) = self.leaves[index as usize % self.leaves.len()];
+            return Sx::leaf(d, t);
+        }
+        let un = self.unary.len() as u64 * self.count_exact(n - 1, memo);
+        if index < un {
+            let sub = self.count_exact(n - 1, memo);
+            let op = self.unary[(index / sub) as usize];
+            return unary_node(op, self.unrank_exact(index % sub, n - 1, memo));
+        }
+        index -= un;
+        let mut per_op = 0u64;
+        for i in 1..=(n - 2) {
+            per_op += self.count_exact(i, memo) * self.count_exact(n - 1 - i, memo);
+        }
+        let op = self.binary[(index / per_op) as usize];
+        let mut r = index % per_op;
+        for i in 1..=(n - 2) {
+            let block = self.count_exact(i, memo) * self.count_exact(n - 1 - i, memo);
+            if r < block {
+                let rc = self.count_exact(n - 1 - i, memo);
+                let left = self.unrank_exact(r / rc, i, memo);
+                let right = self.unrank_exact(r % rc, n - 1 - i, memo);
+                return Sx::node(op, Some(left), Some(right));
+            }
+            r -= block;
+        }
+        Sx::leaf("Unit", "()")
+    }
 }
 
 pub fn count_up_to(max_nodes: usize) -> u64 {
-    let mut memo = vec![];
-    (1..=max_nodes).map(|n| count_exact(n, &mut memo)).sum()
+    CORE.count_up_to(max_nodes)
 }
 
-/// index -> tree, all trees with 1 node first, then 2, ... (size order)
-pub fn unrank(mut index: u64, max_nodes: usize) -> Option<Sx> {
-    let mut memo = vec![];
-    for n in 1..=max_nodes {
-        let c = count_exact(n, &mut memo);
-        if index < c {
-            return Some(unrank_exact(index, n, &mut memo));
-        }
-        index -= c;
-    }
-    None
-}
-
-fn unrank_exact(mut index: u64, n: usize, memo: &mut Vec<u64>) -> Sx {
-    if n == 1 {
-        let (d, t) = LEAVES[index as usize % LEAVES.len()];
-        return Sx::leaf(d, t);
-    }
-    let un = UNARY.len() as u64 * count_exact(n - 1, memo);
-    if index < un {
-        let sub = count_exact(n - 1, memo);
-        let op = UNARY[(index / sub) as usize];
-        return unary_node(op, unrank_exact(index % sub, n - 1, memo));
-    }
-    index -= un;
-    // binary: op major, then split, then left, right
-    let mut per_op = 0u64;
-    for i in 1..=(n - 2) {
-        per_op += count_exact(i, memo) * count_exact(n - 1 - i, memo);
-    }
-    let op = BINARY[(index / per_op) as usize];
-    let mut r = index % per_op;
-    for i in 1..=(n - 2) {
-        let block = count_exact(i, memo) * count_exact(n - 1 - i, memo);
-        if r < block {
-            let rc = count_exact(n - 1 - i, memo);
-            let left = unrank_exact(r / rc, i, memo);
-            let right = unrank_exact(r % rc, n - 1 - i, memo);
-            return Sx::node(op, Some(left), Some(right));
-        }
-        r -= block;
-    }
-    Sx::leaf("Unit", "()")
+pub fn unrank(index: u64, max_nodes: usize) -> Option<Sx> {
+    CORE.unrank(index, max_nodes)
 }
 
 // ---------------------------------------------------------------------------------------------
